@@ -44,6 +44,10 @@ if confirm and os.path.isdir(wt):
     meta["demo_without_patch_passes"] = ("test result: ok" in out2) and "FAILED" not in out2
     meta["demo_cmd"] = f"cp demo.rs <worktree>/{'gsd-parser/' if is_gsd else ''}tests/{demo_name}.rs && cargo test --offline {pkg} --test {demo_name}"
     sh("git checkout -- . && git clean -fdq -e target", cwd=wt)
+if "--no-checks" in sys.argv:
+    json.dump(meta, open(os.path.join(dst, "meta.json"), "w"), indent=1)
+    print(prop, m, "confirmed:", {k: meta.get(k) for k in ("suite_with_patch", "demo_with_patch_fails", "demo_without_patch_passes")})
+    sys.exit(0)
 # run my checks against the mutation — in an isolated sandbox copy of /repo and /verif (so that the
 # real /repo is never touched and work in /verif can go on): /tmp/seedbox/{repo,verif}
 BOX = "/tmp/seedbox"
@@ -81,6 +85,7 @@ try:
         rc, out = sh(f"./check {p} --tier quick", cwd=BOX + "/verif", timeout=3000)
         v = [l for l in out.splitlines() if l.startswith("VIOLATION")]
         if v:
+            v.sort(key=lambda l: "no-failing-input-found" in l)   # a concrete violation first
             rep = re.search(r"replay=(\S+)", v[0]).group(1)
             clause = ""
             try:
